@@ -310,7 +310,20 @@ pub fn drive_random(s: &mut Session, rng: &mut Rng, runs: usize) {
                                 times[match w { 'a' => 0, 'd' => 1, _ => 2 }] = t2;
                                 s.set_time(w, t2);
                             }
-                            2 => s.set_sustain(pick_sustain(rng)),
+                            2 => {
+                                if rng.chance(1, 2) {
+                                    s.set_sustain(pick_sustain(rng))
+                                } else {
+                                    // a sustain level swept in small steps, one per tick (a knob being turned)
+                                    let mut lv = pick_sustain(rng).clamp(0.05, 0.95);
+                                    let d = (rng.log_uniform(2e-4, 8e-3) * if rng.chance(1, 2) { 1.0 } else { -1.0 }) as f32;
+                                    for _ in 0..(8 + rng.below(30)) {
+                                        lv = (lv + d).clamp(0.0, 1.0);
+                                        s.set_sustain(lv);
+                                        s.tick();
+                                    }
+                                }
+                            }
                             3 => {
                                 s.gate_off();
                                 break;
